@@ -731,8 +731,15 @@ def judge(ctx, c, small, reuse, given=None):
             q = c['params']
             gmin = min(abs(q['kappa_v1'] / q['kappa_irr']), abs(q['kappa_v2'] / q['kappa_irr']))
             rel = 1e-10 + 1e-15 / gmin
-        ctx.check_close(kind + '.profile vs Temperature model', prof_i, prof_m, small, rel=rel,
-                        abs_=0.0 if kind != 'guillot' else 1e-9)
+        if kind == 'guillot':
+            # the closed form gives T^4; T is its fourth root.  Where T^4 comes out orders of magnitude below the profile's
+            # largest T^4 (parameters outside their documented bounds: the bracket changes sign higher up) it is a difference
+            # of large terms, and its rounding error scales with the LARGEST T^4: compared in T^4, with that allowance
+            pi4, pm4 = np.asarray(prof_i, float) ** 4, np.asarray(prof_m, float) ** 4
+            big = float(np.nanmax(pm4)) if np.any(np.isfinite(pm4)) else 0.0
+            ctx.check_close(kind + '.profile vs Temperature model', pi4, pm4, small, rel=4 * rel, abs_=1e-12 * big + 4e-9)
+        else:
+            ctx.check_close(kind + '.profile vs Temperature model', prof_i, prof_m, small, rel=rel, abs_=0.0)
     # ---- the property's own predicates, on the implementation
     key = kind + (':' + sub if sub else '') + ('' if route == 'direct' else '@' + route)
     if kind == 'npoint':
